@@ -2788,7 +2788,11 @@ impl QueryJob {
                                         }
                                     }
                                     DeletePattern::BulkTuples(tuples) => {
-                                        let mut total_deleted = 0;
+                                        // One statement is one operation: delete all its tuples
+                                        // in a single engine call. Deleting them one by one let
+                                        // concurrent requests (and a crash) see the statement
+                                        // half applied.
+                                        let mut to_delete = Vec::with_capacity(tuples.len());
                                         for tuple_terms in tuples {
                                             // Convert terms to values
                                             let converted: Result<
@@ -2796,17 +2800,12 @@ impl QueryJob {
                                                 String,
                                             > = tuple_terms.iter().map(term_to_value).collect();
                                             if let Ok(values) = converted {
-                                                let tuple = crate::value::Tuple::new(values);
-                                                let count = storage
-                                                    .delete_tuples_from(
-                                                        &kg_name,
-                                                        &op.relation,
-                                                        vec![tuple],
-                                                    )
-                                                    .map_err(|e| e.to_string())?;
-                                                total_deleted += count;
+                                                to_delete.push(crate::value::Tuple::new(values));
                                             }
                                         }
+                                        let total_deleted = storage
+                                            .delete_tuples_from(&kg_name, &op.relation, to_delete)
+                                            .map_err(|e| e.to_string())?;
                                         if total_deleted > 0 {
                                             self.notify_persistent_update(
                                                 &kg_name,
@@ -2863,7 +2862,9 @@ impl QueryJob {
                                             )
                                             .map_err(|e| e.to_string())?;
 
-                                        let mut deleted = 0;
+                                        // All matched tuples are deleted in a single engine
+                                        // call (see the bulk delete above).
+                                        let mut to_delete: Vec<crate::value::Tuple> = Vec::new();
 
                                         for result_tuple in results {
                                             // Build bindings from result
@@ -2915,18 +2916,13 @@ impl QueryJob {
                                             }
 
                                             if valid && !tuple_values.is_empty() {
-                                                let tuple_to_delete =
-                                                    crate::value::Tuple::new(tuple_values);
-                                                let count = storage
-                                                    .delete_tuples_from(
-                                                        &kg_name,
-                                                        &op.relation,
-                                                        vec![tuple_to_delete],
-                                                    )
-                                                    .map_err(|e| e.to_string())?;
-                                                deleted += count;
+                                                to_delete
+                                                    .push(crate::value::Tuple::new(tuple_values));
                                             }
                                         }
+                                        let deleted = storage
+                                            .delete_tuples_from(&kg_name, &op.relation, to_delete)
+                                            .map_err(|e| e.to_string())?;
 
                                         if deleted > 0 {
                                             self.notify_persistent_update(
